@@ -100,6 +100,10 @@ func NewUpstreamReverseProxy(config *UpstreamConfig, signer *RequestSigner) (htt
 			for key := range securityHeaders {
 				resp.Header.Del(key)
 			}
+			// Strict-Transport-Security is set by the requireHTTPS middleware rather than
+			// through securityHeaders, but it is protected in the same way: an upstream
+			// must not be able to replace or weaken the proxy's own value.
+			resp.Header.Del("Strict-Transport-Security")
 
 			return nil
 		},
